@@ -258,4 +258,245 @@ theorem recvFrame_ctl (c : H2Conn) (f : FrameIn) : AllCtl (recvFrame c f).2 := b
     | pushPromise sid => exact sendGoaway_ctl _ _
     | unknown t => exact AllCtl.nil
 
+/-! ### number of tracked streams -/
+
+@[simp] theorem updStrm_len (c : H2Conn) (sid : Nat) (f : Strm → Strm) :
+    (updStrm c sid f).streams.length = c.streams.length := by simp [updStrm]
+
+@[simp] theorem rstState_len (c : H2Conn) (sid : Nat) : (rstState c sid).streams.length = c.streams.length := by
+  unfold rstState
+  split
+  · rfl
+  · simp only
+    split <;> simp
+
+theorem foldl_rstState_len (l : List Strm) : ∀ (c : H2Conn),
+    (l.foldl (fun c s => rstState c s.id) c).streams.length = c.streams.length := by
+  induction l with
+  | nil => intro c; rfl
+  | cons x xs ih => intro c; simp only [List.foldl_cons]; rw [ih]; simp
+
+@[simp] theorem goawayResets_len (c : H2Conn) (code : Nat) :
+    (goawayResets c code).1.streams.length = c.streams.length := by
+  unfold goawayResets
+  split
+  · simp only; exact foldl_rstState_len _ _
+  · rfl
+
+@[simp] theorem sendGoaway_len (c : H2Conn) (code : Nat) :
+    (sendGoaway c code).1.streams.length = c.streams.length := by
+  unfold sendGoaway
+  simp only
+  split <;> simp
+
+@[simp] theorem discardHeaders_len (c : H2Conn) : (discardHeaders c).1.streams.length = c.streams.length := by
+  unfold discardHeaders
+  split
+  · rfl
+  · simp only
+    split <;> simp
+
+@[simp] theorem recvEndData_len (c : H2Conn) (s : Strm) (alen : Nat) :
+    (recvEndData c s alen).1.streams.length = c.streams.length := by
+  unfold recvEndData
+  simp only
+  split
+  · simp
+  · split <;> simp
+
+@[simp] theorem connWinUpd_len (c : H2Conn) (len : Nat) : (connWinUpd c len).1.streams.length = c.streams.length := by
+  simp [connWinUpd]
+
+theorem andThen_len (r : Res) (f : H2Conn → Res) (hf : ∀ c, (f c).1.streams.length = c.streams.length) :
+    (r.andThen f).1.streams.length = r.1.streams.length := by
+  simp [Res.andThen, hf]
+
+theorem recvDataStream_len (c : H2Conn) (s : Strm) (sid len alen : Nat) (es : Bool) :
+    (recvDataStream c s sid len alen es).1.streams.length = c.streams.length := by
+  unfold recvDataStream
+  split
+  · simp
+  · simp only
+    split
+    · simp
+    · by_cases hes : es = true
+      · simp only [hes, if_true]
+        split <;> simp
+      · simp [hes]
+
+theorem recvData_len (c : H2Conn) (sid len : Nat) (pad : Option Nat) (es : Bool) :
+    (recvData c sid len pad es).1.streams.length = c.streams.length := by
+  unfold recvData
+  split
+  · simp
+  · split
+    · simp
+    · split
+      · split
+        · simp
+        · split
+          · rfl
+          · simp only
+            split <;> simp
+      · exact recvDataStream_len _ _ _ _ _ _
+
+theorem recvWindowUpdate_len (c : H2Conn) (sid len inc : Nat) :
+    (recvWindowUpdate c sid len inc).1.streams.length = c.streams.length := by
+  unfold recvWindowUpdate
+  repeat' split
+  all_goals simp
+
+theorem applySettings_len : ∀ (ps : List (Nat × Nat)) (c : H2Conn),
+    (applySettings c ps).1.streams.length = c.streams.length := by
+  intro ps
+  induction ps with
+  | nil => intro c; simp [applySettings]
+  | cons p rest ih =>
+    intro c
+    obtain ⟨k, v⟩ := p
+    unfold applySettings
+    split
+    · simp
+    · split
+      · split
+        · simp
+        · simp only
+          rw [ih]
+          simp only
+          rw [foldl_rstState_len]
+          simp
+      · split
+        · split
+          · simp
+          · rw [ih]
+        · rw [ih]
+
+theorem recvSettings_len (c : H2Conn) (ack : Bool) (sid : Nat) (ps : List (Nat × Nat)) (junk : Nat) :
+    (recvSettings c ack sid ps junk).1.streams.length = c.streams.length := by
+  unfold recvSettings
+  split
+  · simp
+  · split
+    · simp only
+      split
+      · simp [applySettings_len]
+      · simp [applySettings_len]
+    · repeat' split
+      all_goals simp
+
+theorem recvRstStream_len (c : H2Conn) (sid len : Nat) :
+    (recvRstStream c sid len).1.streams.length = c.streams.length := by
+  unfold recvRstStream
+  repeat' split
+  all_goals simp
+
+theorem recvPriority_len (c : H2Conn) (sid len dep : Nat) :
+    (recvPriority c sid len dep).1.streams.length = c.streams.length := by
+  unfold recvPriority
+  repeat' split
+  all_goals simp
+
+theorem recvGoaway_len (c : H2Conn) (sid len code : Nat) :
+    (recvGoaway c sid len code).1.streams.length = c.streams.length := by
+  unfold recvGoaway
+  repeat' split
+  all_goals simp
+
+theorem recvPing_len (c : H2Conn) (ack : Bool) (sid len : Nat) :
+    (recvPing c ack sid len).1.streams.length = c.streams.length := by
+  unfold recvPing
+  repeat' split
+  all_goals simp
+
+theorem refuseStream_len (c : H2Conn) (sid : Nat) : (refuseStream c sid).1.streams.length = c.streams.length := by
+  unfold refuseStream
+  simp only
+  split <;> simp
+
+theorem recvTrailers_len (c : H2Conn) (sid : Nat) (kind : HdrKind) (es : Bool) :
+    (recvTrailers c sid kind es).1.streams.length = c.streams.length := by
+  unfold recvTrailers
+  split
+  · rw [andThen_len _ _ discardHeaders_len]; simp
+  · split
+    · rw [andThen_len _ _ discardHeaders_len]; simp
+    · split
+      · rw [andThen_len _ _ discardHeaders_len]; simp
+      · simp only
+        split
+        · split
+          · rw [andThen_len _ _ (fun c => sendGoaway_len c _)]; simp
+          · simp
+        · rw [andThen_len _ _ discardHeaders_len]; simp
+
+/-- the number of tracked streams never exceeds the limit: a HEADERS frame adds a stream
+    only while fewer than h2MaxStreams are active -/
+theorem recvHeaders_len_le (c : H2Conn) (sid : Nat) (kind : HdrKind) (es : Bool) (dep : Option Nat) (padBad : Bool)
+    (h : c.streams.length ≤ Extracted.h2MaxStreams) :
+    (recvHeaders c sid kind es dep padBad).1.streams.length ≤ Extracted.h2MaxStreams := by
+  unfold recvHeaders
+  split
+  · simpa using h
+  · split
+    · simpa using h
+    · split
+      · simpa using h
+      · split
+        · rw [recvTrailers_len]; exact h
+        · split
+          · simpa using h
+          · split
+            · rw [andThen_len _ _ discardHeaders_len, refuseStream_len]; exact h
+            · rename_i hfull
+              unfold newStream
+              split
+              · simp [addStrm]; omega
+              · simp [addStrm]; omega
+
+theorem recvFrame_len_le (c : H2Conn) (f : FrameIn) (h : c.streams.length ≤ Extracted.h2MaxStreams) :
+    (recvFrame c f).1.streams.length ≤ Extracted.h2MaxStreams := by
+  unfold recvFrame
+  split
+  · exact h
+  · cases f with
+    | oversize => simpa using h
+    | settings ack sid ps junk => simp only; rw [recvSettings_len]; exact h
+    | ping ack sid len => simp only; rw [recvPing_len]; exact h
+    | windowUpdate sid len inc => simp only; rw [recvWindowUpdate_len]; exact h
+    | rstStream sid len code => simp only; rw [recvRstStream_len]; exact h
+    | priority sid len dep => simp only; rw [recvPriority_len]; exact h
+    | goaway sid len code => simp only; rw [recvGoaway_len]; exact h
+    | data sid len pad es => simp only; rw [recvData_len]; exact h
+    | headers sid kind es dep padBad contBad =>
+      simp only
+      split
+      · simpa using h
+      · exact recvHeaders_len_le _ _ _ _ _ _ h
+    | continuation sid => simpa using h
+    | pushPromise sid => simpa using h
+    | unknown t => exact h
+
+theorem passAux_len_le : ∀ (ss : List Strm) (cswin : Int) (budget : Nat),
+    (passAux cswin budget ss).streams.length ≤ ss.length := by
+  intro ss
+  induction ss with
+  | nil => intro _ _; simp [passAux]
+  | cons s rest ih =>
+    intro cswin budget
+    simp only [passAux]
+    generalize strmTurn cswin budget s = t
+    obtain ⟨t1, t2, t3, t4⟩ := t
+    have := ih (cswin - t3) (budget - t3)
+    cases t1 <;> simp <;> omega
+
+theorem processPass_len_le (c : H2Conn) (budget : Nat) :
+    (processPass c budget).1.streams.length ≤ c.streams.length := by
+  unfold processPass
+  split
+  · exact Nat.le_refl _
+  · split
+    · simp
+    · simp only
+      exact passAux_len_le _ _ _
+
 end LtVerif
